@@ -18,7 +18,7 @@ PROPERTY = "C09"
 RULE = (
     "Hypothesis-generated noisy spectra (random RC/RQ ladders with optional series capacitance/inductance contributions, 2..7 "
     "decades, 4..12 points per decade, noise 0.01..1 % from a drawn integer seed) x {complex, real, imaginary, complex-inv, "
-    "real-inv, imaginary-inv} (+ cnls in the thorough tier) x {Z, Y} x add_capacitance x add_inductance x num_RC <= 2 per decade "
+    "real-inv, imaginary-inv} (+ a few cnls cases, whose unit dependence is known finding F38) x {Z, Y} x add_capacitance x add_inductance x num_RC <= 2 per decade "
     "with num_F_ext_evaluations=0 x log_F_ext in [-0.5, 0.5] x scale factors k_Z, k_f log-uniform in 1e-6..1e6 x order reversal. "
     "Oracle: residual vectors agree (abs 1e-5 + rel 1e-4 of max |residual|), pseudo chi-squared rel 1e-4, time constants scale "
     "by 1/k_f (rel 1e-12), R and R_k scale by k_Z, C and C_k by 1/(k_Z k_f), L by k_Z/k_f (rel 1e-4 of the coefficient vector "
@@ -55,6 +55,13 @@ def case_strategy(draw, tests=LINEAR):
         "log_F_ext": draw(st.sampled_from([0.0, 0.0, -0.5, 0.25, 0.5])),
         "kZ": 10.0 ** draw(st.floats(-6, 6)), "kf": 10.0 ** draw(st.floats(-6, 6)),
     }
+
+
+def pred_cnls(case):
+    return isinstance(case, dict) and case.get("test") == "cnls"
+
+
+PREDICATES = {"cnls-implementation": pred_cnls}
 
 
 def spectrum(case):
@@ -113,15 +120,25 @@ def body(ctx, case):
     tc0 = np.asarray(base.get_time_constants())
     kZ, kf = case["kZ"], case["kf"]
 
+    is_cnls = case["test"] == "cnls"
+
+    class _Route:
+        """All unit-scaling clauses of the cnls implementation are one clause (one known finding, F38)."""
+
+        def check(self, cond, clause, c, detail=""):
+            return ctx.check(cond, "cnls-invariant-under-units" if is_cnls else clause, c, detail)
+
+    route = _Route()
+
     def compare(tag, res, sZ, sf):
         r = np.asarray(res.residuals)
         dev = float(np.max(np.abs(r - r0)))
         ctx.observe(f"residual-change/{tag}", dev / max(scale, 1e-300))
-        ok = ctx.check(_close_res(r, r0, scale), f"residuals-invariant:{tag}", case, f"{sorted(labels)}: relative residuals changed by {dev:.3e} (max |residual| {scale:.3e})")
-        ok &= ctx.check(abs(res.pseudo_chisqr - base.pseudo_chisqr) <= 1e-4 * base.pseudo_chisqr + 1e-18, f"chisqr-invariant:{tag}", case,
+        ok = route.check(_close_res(r, r0, scale), f"residuals-invariant:{tag}", case, f"{sorted(labels)}: relative residuals changed by {dev:.3e} (max |residual| {scale:.3e})")
+        ok &= route.check(abs(res.pseudo_chisqr - base.pseudo_chisqr) <= 1e-4 * base.pseudo_chisqr + 1e-18, f"chisqr-invariant:{tag}", case,
                         f"pseudo chi-squared {base.pseudo_chisqr:.6e} -> {res.pseudo_chisqr:.6e}")
         tc = np.asarray(res.get_time_constants())
-        ok &= ctx.check(tc.shape == tc0.shape and bool(np.all(np.abs(tc * sf - tc0) <= 1e-11 * tc0)), f"time-constants-rescale:{tag}", case, f"time constants {tc[:3]} vs {tc0[:3]}/k_f")
+        ok &= route.check(tc.shape == tc0.shape and bool(np.all(np.abs(tc * sf - tc0) <= 1e-11 * tc0)), f"time-constants-rescale:{tag}", case, f"time constants {tc[:3]} vs {tc0[:3]}/k_f")
         # parameters: R, R_k ~ k_Z ; C_k, C ~ 1/(k_Z k_f) ; L ~ k_Z / k_f   (in the units of the fitted representation)
         v = _vector(res)
         if ok:
@@ -134,16 +151,16 @@ def body(ctx, case):
             ref = max(float(np.max(np.abs(c0))), abs(1 / v0["R"] if adm else v0["R"]))
             # the R_k|C_k of neighbouring time constants are strongly anti-correlated: only their effect on the model is
             # determined, which the residual clause already compares; here gross unit errors are looked for
-            ctx.check(abs(v["R"] / sZ - v0["R"]) <= 1e-3 * max(abs(v0["R"]), 1e-300) or abs((1 / v["R"]) * sZ - 1 / v0["R"]) <= 1e-3 * ref, f"parameters-rescale:{tag}", case,
+            route.check(abs(v["R"] / sZ - v0["R"]) <= 1e-3 * max(abs(v0["R"]), 1e-300) or abs((1 / v["R"]) * sZ - 1 / v0["R"]) <= 1e-3 * ref, f"parameters-rescale:{tag}", case,
                       f"series/parallel resistance {v0['R']!r} -> {v['R']!r} (expected x{sZ!r})")
-            ctx.check(float(np.max(np.abs(c1 - c0))) <= 1e-2 * ref, f"parameters-rescale:{tag}", case, f"R_k|C_k do not rescale: {k0[:3]} -> {v['k'][:3]} (expected x{coef_scale!r})")
+            route.check(float(np.max(np.abs(c1 - c0))) <= 1e-2 * ref, f"parameters-rescale:{tag}", case, f"R_k|C_k do not rescale: {k0[:3]} -> {v['k'][:3]} (expected x{coef_scale!r})")
             if v0["C"] is not None and abs(v0["C"]) < 1e40 and abs(v["C"]) < 1e40:
                 a, b = 1 / v0["C"], (1 / v["C"]) / (sZ * sf)
-                ctx.check(abs(a - b) <= 1e-2 * max(abs(a), ref * (1 if adm else w0)) or abs(v["C"] * sZ * sf - v0["C"]) <= 1e-2 * abs(v0["C"]), f"parameters-rescale:{tag}", case,
+                route.check(abs(a - b) <= 1e-2 * max(abs(a), ref * (1 if adm else w0)) or abs(v["C"] * sZ * sf - v0["C"]) <= 1e-2 * abs(v0["C"]), f"parameters-rescale:{tag}", case,
                           f"capacitance {v0['C']!r} -> {v['C']!r} (expected x{1 / (sZ * sf)!r})")
             if v0["L"] is not None and abs(v0["L"]) < 1e17 and abs(v["L"]) < 1e17:
                 a, b = v0["L"], v["L"] / (sZ / sf)
-                ctx.check(abs(a - b) <= 1e-2 * max(abs(a), (ref / w0) if not adm else 0.0) or abs(1 / a - 1 / b) <= 1e-2 * ref / w0 * (w0 * w0 if adm else 1), f"parameters-rescale:{tag}", case,
+                route.check(abs(a - b) <= 1e-2 * max(abs(a), (ref / w0) if not adm else 0.0) or abs(1 / a - 1 / b) <= 1e-2 * ref / w0 * (w0 * w0 if adm else 1), f"parameters-rescale:{tag}", case,
                           f"inductance {v0['L']!r} -> {v['L']!r} (expected x{sZ / sf!r})")
 
     try:
@@ -163,7 +180,7 @@ def body(ctx, case):
 
 
 def parts(ctx):
-    ps = [Part("linear", body, strategy=case_strategy(), n={"quick": 8000, "thorough": 60000}, budget_s={"quick": 150, "thorough": 1800})]
-    if ctx.tier == "thorough":
-        ps.append(Part("cnls", body, strategy=case_strategy(["cnls"]), n={"quick": 0, "thorough": 200}, budget_s={"quick": 1, "thorough": 1200}, case_timeout_s=300))
-    return ps
+    return [
+        Part("linear", body, strategy=case_strategy(), n={"quick": 8000, "thorough": 60000}, budget_s={"quick": 150, "thorough": 1800}),
+        Part("cnls", body, strategy=case_strategy(["cnls"]), n={"quick": 16, "thorough": 200}, budget_s={"quick": 120, "thorough": 1200}, case_timeout_s=120),
+    ]
